@@ -81,9 +81,11 @@ def run(ctx):
             vlib.tlc_mc(ctx, "FeeMarket_MC", "FeeMarket_MC_window.cfg", label="window")
         ctx.cov["exhaustive_at_small_word_size"] = True
         if not ctx.quick:
-            r = vlib.tlc_mc(ctx, "FeeMarket_MC", "FeeMarket_MC_original.cfg", label="orig", expect_violation=True)
-            ctx.cov["design_step_detects_wrapping_product"] = bool(r["violated"])
-            if not r["violated"]:
+            # (violated by an initial state, TLC then prints no state count: run_tlc instead of tlc_mc)
+            r = vlib.run_tlc(ctx, "mc-orig", "FeeMarket_MC", "FeeMarket_MC_original.cfg")
+            hit = "Invariant OriginalAgrees is violated" in r["out"]
+            ctx.cov["design_step_detects_wrapping_product"] = hit
+            if not hit:
                 raise vlib.Infra("sensitivity: the wrapping rule no longer differs from the exact rule in FeeMarket_MC")
     calls = ctx.pick(8, 400)
     rc, out = vlib.go_driver(ctx, PKG, "^TestVerifFeeMarketRows$", files=FILES, env={"VERIF_CALLS": calls})
